@@ -109,8 +109,13 @@ def run(case, ctx):
             # ---- the partitioner on exactly these two samples
             p = NNSpacePartitioner(k)
             ctx.call("C10:nnsp:build", p.build, ref.copy(), X.copy())
+            # the partitioner's D may list the de-duplicated union in any order: everything below is indexed like p.D
+            Dp = np.asarray(p.D, dtype=float)
+            same_set = Dp.shape == D.shape and np.array_equal(np.unique(Dp, axis=0), D)
+            if same_set:
+                D = Dp
             v1, v2 = members(D, ref), members(D, X)
-            if not (np.array_equal(np.asarray(p.D, dtype=float), D) and np.array_equal(p.v1, v1) and np.array_equal(p.v2, v2)):
+            if not (same_set and np.array_equal(p.v1, v1) and np.array_equal(p.v2, v2)):
                 ctx.violation("membership", "C10:nnsp:membership",
                               f"batch {i}: {len(ref)} reference rows, {len(X)} test rows, {len(D)} distinct points: v1 marks {int(np.sum(p.v1))} (expected {int(v1.sum())}), "
                               f"v2 marks {int(np.sum(p.v2))} (expected {int(v2.sum())}) or marks the wrong points")
